@@ -14,6 +14,17 @@ ASSUMPTIONS = [
     'time.monotonic() is an uninterpreted non-decreasing integer',
     'compressor / cipher objects are abstract (assumed contracts: compress -> Optional[bytes], '
     'encrypt_packet -> (bytes, bytes))',
+    'send_packet / _send_kexinit / _send_deferred_packets call each other: every call goes through the CALLEE\'S '
+    'VERIFIED contract (contract_stub; clauses that read the callee\'s own call log are not assumed at call sites, '
+    'the log-free clauses class-inv / queue-unchanged-or-extended / never-queued / exchange-bookkeeping-untouched-'
+    'while-an-exchange-runs are).  This is partial correctness; termination of the recursion: send_packet calls '
+    'itself only with pkttype > 49 >= nested pkttype (pre-at-call obligation), and _send_kexinit -> send_packet(20) '
+    'runs with _kex_complete False, where the re-key trigger (needs _kex_complete) cannot fire again',
+    'K: `_kex is not None => not _kex_complete` (an exchange object exists only between our KEXINIT and our NEWKEYS) '
+    'is assumed by send_newkeys; writers of _kex_complete: __init__ (False), _send_kexinit (False: under contract), '
+    'send_newkeys (True, after _kex was cleared: proved there); the writer of _kex, the tail of _process_kexinit '
+    '(`self._kex = get_kex(...)`), runs after our KEXINIT went out (this activation: region contract in '
+    'c11_kexinit.py, or earlier: _kexinit_sent) - that last step is argued, not proved',
 ]
 
 TUP = 'tuple[int,seq[bytes]]'
@@ -38,16 +49,18 @@ def send_inv(c, old=True):
                   f('_rekey_bytes_sent') >= 0)
 
 
-def send_kexinit_stub(cx):
-    """assumed contract of _send_kexinit (verified separately under C02): starts an exchange and emits KEXINIT"""
-    seq = cx.fresh('int', 'kexinit_seq')
-    t = cx.fresh('int', 'kexinit_time')
-    return [Out(sets={'_kex_complete': VBool(False), '_rekey_bytes_sent': VInt(0), '_rekey_time': t,
-                      '_send_seq': seq},
-                assume=[seq.z >= 0, seq.z < 2 ** 32], event=('send_kexinit', ()))]
+SEND_FIELDS = dict(CONN_FIELDS, _client_kexinit='bytes', _server_kexinit='bytes', _gss='opt[obj:GSS]',
+                   _gss_kex='bool', _session_id='bytes')
+SEND_CLASSES = dict(CONN_CLASSES, SSHConnection=SEND_FIELDS, Logger={}, GSS={'mechs': 'seq[bytes]'})
 
 
-send_kexinit_stub.modifies = ('_kex_complete', '_rekey_bytes_sent', '_rekey_time', '_send_seq')
+def _kexinit_spec():
+    """the contract of SSHConnection._send_kexinit proved in c11_kexinit.py"""
+    from . import c11_kexinit
+    return c11_kexinit.send_kexinit
+
+
+send_kexinit_stub = contract_stub(_kexinit_spec)
 
 
 def own_sends(c):
@@ -98,8 +111,9 @@ def kex_progress(c):
 
 def trigger(c):
     """an exchange is started iff authenticated, idle, and a byte or time limit was reached"""
-    started = z3.BoolVal(len(c.events('send_kexinit')) == 1)
-    none = z3.BoolVal(len(c.events('send_kexinit')) == 0)
+    n = len(c.calls('_send_kexinit'))
+    started = z3.BoolVal(n == 1)
+    none = z3.BoolVal(n == 0)
     clocks = [x for x in c.calls() if x['key'] == 'time.monotonic']
     due_bytes = c.old('_rekey_bytes_sent') >= c.old('_rekey_bytes')
     if clocks:
@@ -110,21 +124,39 @@ def trigger(c):
     return z3.And(z3.Or(started, none), started == cond)
 
 
-def seq_rule(c):
-    """sequence number: +1 mod 2^32 per emitted packet, 0 after NEWKEYS under strict kex"""
-    sends = own_sends(c)
-    if not sends:
-        return z3.BoolVal(True)
-    # value at the moment of emission = after an optional rekey start and the optional leading IGNORE
-    seq_at = None
+def seq_before_emission(c):
+    """the send counter right before this activation emits its packet: the entry value, or what the last
+    _send_kexinit() / nested send_packet(MSG_IGNORE) call on this path left behind"""
+    base = c.old('_send_seq')
     for x in c.calls():
-        if x['key'].endswith('encrypt_packet'):
-            seq_at = x['args'][0].z
-    base = seq_at
-    if base is None:
+        if x['key'] in ('self._send_kexinit', 'self.send_packet'):
+            v = (x.get('sets') or {}).get('_send_seq')
+            if v is not None:
+                base = v.z
+    return base
+
+
+def seq_rule(c):
+    """sequence number: +1 mod 2^32 per emitted packet, 0 after NEWKEYS under strict kex (OpenSSH PROTOCOL 1.10) -
+    with and without encryption: the FIRST NEWKEYS of a connection goes out unencrypted, that is the Terrapin case"""
+    if not own_sends(c):
         return z3.BoolVal(True)
+    base = seq_before_emission(c)
     return c.new('_send_seq') == z3.If(z3.And(c.arg('pkttype') == 21, c.old('_strict_kex')), 0,
                                        (base + 1) % 2 ** 32)
+
+
+def strict_send_seq_reset(c):
+    """the counter restarts at NEWKEYS under strict kex and only there: a zero after any other emission is the
+    32-bit wrap-around, which is legal only once encryption is on"""
+    if not own_sends(c):
+        return z3.BoolVal(True)
+    base = seq_before_emission(c)
+    newkeys_strict = z3.And(c.arg('pkttype') == 21, c.old('_strict_kex'))
+    return z3.And(z3.Implies(newkeys_strict, c.new('_send_seq') == 0),
+                  z3.Implies(z3.And(c.new('_send_seq') == 0, z3.Not(newkeys_strict)),
+                             z3.And(base == 2 ** 32 - 1, opt_set(c, '_send_encryption'))),
+                  z3.Implies(z3.Not(newkeys_strict), c.new('_send_seq') == (base + 1) % 2 ** 32))
 
 
 def wire_format(c):
@@ -162,21 +194,68 @@ def mac_seq(c):
     encs = [x for x in c.calls() if x['key'].endswith('encrypt_packet')]
     if not encs:
         return z3.BoolVal(True)
-    return z3.And(encs[0]['args'][0].z >= 0, encs[0]['args'][0].z < 2 ** 32)
+    return z3.And(encs[0]['args'][0].z >= 0, encs[0]['args'][0].z < 2 ** 32,
+                  encs[0]['args'][0].z == seq_before_emission(c))
 
 
 def rollover(c):
     return z3.And(z3.Not(opt_set(c, '_send_encryption')), c.new('_send_seq') == 0)
 
 
+# ---- the part of the contract that callers may rely on: clauses that do not read the activation's own call log
+def queue_entry(c):
+    return to_z3(VTuple([c.argv('pkttype'), c.argv('args')]), TUP)
+
+
+def queue_step(c):
+    """the queue is left alone or extended by exactly this packet, at the end"""
+    d0, d1 = c.old('_deferred_packets'), c.new('_deferred_packets')
+    return z3.Or(d1 == d0, d1 == z3.Concat(d0, z3.Unit(queue_entry(c))))
+
+
+def never_queued(c):
+    """DISCONNECT, IGNORE, UNIMPLEMENTED, EXT_INFO and the key-exchange messages themselves are never held back"""
+    t = c.arg('pkttype')
+    return z3.Implies(z3.And(rfc_allowed_during_kex(t), t != 4),
+                      c.new('_deferred_packets') == c.old('_deferred_packets'))
+
+
+def quiet_during_exchange(c):
+    """while an exchange is running send_packet neither starts another one nor touches its bookkeeping (the re-key
+    trigger cannot fire again, bytes are not counted)"""
+    return z3.Implies(z3.Not(c.old('_kex_complete')),
+                      z3.And(z3.Not(c.new('_kex_complete')), c.new('_kexinit_sent') == c.old('_kexinit_sent'),
+                             c.new('_rekey_time') == c.old('_rekey_time'),
+                             c.new('_rekey_bytes_sent') == c.old('_rekey_bytes_sent')))
+
+
+def kexinit_sent_means_running(c):
+    """K2: `_kexinit_sent => not _kex_complete` is preserved (our KEXINIT for the coming exchange is out)"""
+    return z3.Implies(z3.Implies(c.old('_kexinit_sent'), z3.Not(c.old('_kex_complete'))),
+                      z3.Implies(c.new('_kexinit_sent'), z3.Not(c.new('_kex_complete'))))
+
+
+def queue_types_kept(c):
+    """class invariant of the queue (what _send_deferred_packets requires): every entry has a legal type"""
+    return z3.Implies(all_types_ok(c.old('_deferred_packets')), all_types_ok(c.new('_deferred_packets')))
+
+
+CALLER_VIEW = [('class-inv', lambda c: send_inv(c, old=False)),
+               ('queue-unchanged-or-extended-by-this-packet', queue_step),
+               ('kex-and-transport-control-messages-are-never-queued', never_queued),
+               ('exchange-bookkeeping-untouched-while-an-exchange-runs', quiet_during_exchange),
+               ('kexinit_sent-only-while-an-exchange-runs', kexinit_sent_means_running),
+               ('queue-entries-keep-legal-types', queue_types_kept)]
+
+
 def _mk_send_packet(prop, ensures, always, name_suffix=''):
     sp = Spec(
         prop, 'connection', 'SSHConnection.send_packet', self_class='SSHConnection',
         params=dict(pkttype='int', args='seq[bytes]', handler='opt[obj:Logger]'),
-        classes=dict(CONN_CLASSES, Logger={}),
+        classes=SEND_CLASSES,
         stubs={
-            'self._send_kexinit': send_kexinit_stub,
-            'self.send_packet': None,     # filled below (recursion through its own contract)
+            'self._send_kexinit': send_kexinit_stub,     # verified contract (c11_kexinit.py)
+            'self.send_packet': _recursive_stub,         # recursion through C11's own verified contract
             'self._compressor.compress': ret('opt[bytes]', 'compressed'),
             'self._send_encryption.encrypt_packet': ret('tuple[bytes,bytes]', 'encrypted'),
             'self._send': noop('wire'),
@@ -184,77 +263,76 @@ def _mk_send_packet(prop, ensures, always, name_suffix=''):
         },
         requires=lambda c: z3.And(send_inv(c), c.arg('pkttype') >= 1, c.arg('pkttype') <= 255),
         modifies=['_kex_complete', '_rekey_bytes_sent', '_rekey_time', '_send_seq', '_kexinit_sent',
-                  '_deferred_packets'],
-        ensures=ensures, always=always,
+                  '_deferred_packets', '_client_kexinit', '_server_kexinit'],
+        ensures=ensures, always=list(always) + (CALLER_VIEW if prop == 'C11' else []),
         # finite case split from the registered cipher table (block sizes 1, 8, 16 -> max(8, .) in send_newkeys)
         cases=[(f'bs{b}-hdr{h}', {'_send_blocksize': b, '_send_enchdrlen': h}) for b in (8, 16) for h in (1, 5)],
-        raises={'ProtocolError': rollover, 'CompressionError': True})
+        raises={'ProtocolError': rollover, 'CompressionError': True,
+                # `assert self._gss is not None` in _send_kexinit (GSS key exchange configured without a GSS object)
+                'AssertionError': lambda c: z3.And(c.old('_gss_kex'), z3.Not(opt_set(c, '_gss')))})
+    sp.vararg = 'args'
+    sp.kwonly = ('handler',)
     return sp
 
 
-# the recursive call (leading IGNORE while encrypted) is handled through the function's own contract
-_rec_contract = Spec.__new__(Spec)
-
-
 def _recursive_stub(cx):
-    """self.send_packet(MSG_IGNORE, String(b'')) inside send_packet, through the function's OWN contract (proved
-    below; type 2 <= 49 never recurses again: well-founded).  The nested call re-evaluates the rekey trigger with
-    a later clock value, so it may itself start a key exchange (KEXINIT goes out, _kex_complete becomes False)."""
-    ex, st = cx.ex, cx.st
-    t = cx.args[0].z
-    cx.require('recursion-is-well-founded(pkttype<=49)', t <= 49)
-    old_seq = cx.selff('_send_seq').z
-    strict = cx.selff('_strict_kex').z
-
-    def normal():
-        seq = cx.fresh('int', 'rec_seq')
-        sent = cx.fresh('int', 'rec_bytes')
-        return Out(sets={'_send_seq': seq, '_rekey_bytes_sent': sent},
-                   assume=[seq.z == z3.If(z3.And(t == 21, strict), 0, (old_seq + 1) % 2 ** 32),
-                           sent.z >= cx.selff('_rekey_bytes_sent').z],
-                   event=('nested_send', tuple(cx.args)))
-    # the nested call found a limit reached (rekey-trigger clause of the contract): KEXINIT + IGNORE emitted
-    seq2 = cx.fresh('int', 'rec_seq_kex')
-    tm = cx.fresh('int', 'rec_time')
-    started = Out(sets={'_send_seq': seq2, '_rekey_bytes_sent': VInt(0), '_kex_complete': VBool(False),
-                        '_rekey_time': tm, '_kexinit_sent': VBool(True)},
-                  assume=[seq2.z >= 0, seq2.z < 2 ** 32, cx.selff('_auth_complete').z, cx.selff('_kex_complete').z],
-                  event=('nested_send_started_kex', tuple(cx.args)))
-    # rollover before the first encryption cannot happen here: the nested call is made only while encrypting
-    return [normal(), started, Out(exc=VExc('CompressionError'))]
+    """self.send_packet(MSG_IGNORE, String(b'')) inside send_packet: the function's OWN contract as verified under
+    C11 (the nested call re-evaluates the re-key trigger with a later clock value, so it may itself start a key
+    exchange: _kex_complete is in `modifies`).  Well-founded: the caller has pkttype > 49, the callee <= 49, and an
+    activation with pkttype <= 49 makes no nested call (it would fail this very obligation)."""
+    outer = cx.ex.entry_state.env['pkttype'].z
+    cx.require('recursion-is-well-founded(caller-pkttype>49>=nested-pkttype)', z3.And(cx.args[0].z <= 49, outer > 49))
+    return contract_stub(lambda: send_packet)(cx)
 
 
-_recursive_stub.modifies = ('_send_seq', '_rekey_bytes_sent', '_kex_complete', '_rekey_time', '_kexinit_sent')
+_recursive_stub.modifies = ('_kex_complete', '_rekey_bytes_sent', '_rekey_time', '_send_seq', '_kexinit_sent',
+                            '_deferred_packets', '_client_kexinit', '_server_kexinit')
+_recursive_stub.spec_getter = lambda: send_packet
 
 send_packet = _mk_send_packet(
     'C11',
-    ensures=[('queued-xor-emitted', never_both), ('seq-rule', seq_rule)],
+    ensures=[('queued-xor-emitted', never_both), ('seq-rule', seq_rule),
+             ('mac-over-the-pre-increment-sequence-number', mac_seq)],
     always=[('kex-gate', gate), ('forbidden-types-are-deferred', must_defer), ('rekey-trigger', trigger),
             ('kex-messages-never-queued', kex_progress)])
-send_packet.stubs['self.send_packet'] = _recursive_stub
 
 
-def deferred_loop_inv(c):
-    """resubmission is FIFO: after i iterations exactly the first i queued packets were resubmitted, in order"""
-    i = c.extra['i']
-    evs = c.events('resubmit')
-    return z3.BoolVal(True)
+def resubmit_under_contract(cx):
+    """self.send_packet(pkttype, *args) in the flush loop: the VERIFIED contract of send_packet, plus ghost
+    bookkeeping only - ghost_resubmitted logs every call in order; ghost_requeued logs what the callee appended to
+    the live queue (by the contract the queue is unchanged or extended by exactly this packet)"""
+    outs = contract_stub(lambda: send_packet)(cx)
+    a = list(cx.args)
+    rest = a[1:]
+    if len(rest) == 1 and isinstance(rest[0], tuple) and rest[0][0] == 'star':
+        argsv = rest[0][1]
+    else:
+        t_ = parse_type('seq[bytes]')
+        argsv = VSeq(to_z3(VList(rest), t_), t_.args[0])
+    e = to_z3(VTuple([a[0], argsv]), TUP)
+    c0 = Ctx(cx.ex, cx.st, cx.st, cx.ex.self_ref)
+    d0, gr0, gs0 = c0.new('_deferred_packets'), c0.new('ghost_requeued'), c0.new('ghost_resubmitted')
+    for o in outs:
+        d1 = o.sets['_deferred_packets'].z
+        gr1 = cx.fresh(SEQT, 'requeued')
+        o.sets['ghost_resubmitted'] = VSeq(z3.Concat(gs0, z3.Unit(e)), TUP)
+        o.sets['ghost_requeued'] = gr1
+        o.assume.append(z3.Or(z3.And(d1 == d0, gr1.z == gr0),
+                              z3.And(d1 == z3.Concat(d0, z3.Unit(e)), gr1.z == z3.Concat(gr0, z3.Unit(e)))))
+    return outs
 
 
-def resubmit_stub(cx):
-    a = cx.args
-    return [Out(event=('resubmit', tuple(a)))]
-
-
-resubmit_stub.modifies = ()
+resubmit_under_contract.modifies = _recursive_stub.modifies + ('ghost_resubmitted', 'ghost_requeued')
+resubmit_under_contract.spec_getter = lambda: send_packet
 
 SEQT = 'seq[' + TUP + ']'
 send_deferred = Spec(
     'C11', 'connection', 'SSHConnection._send_deferred_packets', self_class='SSHConnection',
-    classes=CONN_CLASSES,
-    stubs={'self.send_packet': contract_stub(lambda: send_packet_callee)},
+    classes=SEND_CLASSES,
+    stubs={'self.send_packet': resubmit_under_contract},
     loops={1: LoopSpec(modifies=['_kex_complete', '_rekey_bytes_sent', '_rekey_time', '_send_seq',
-                                 '_kexinit_sent', '_deferred_packets', 'ghost_resubmitted', 'ghost_requeued'],
+                                 '_kexinit_sent', '_deferred_packets', '_client_kexinit', '_server_kexinit',
+                                 'ghost_resubmitted', 'ghost_requeued'],
                        invariant=lambda c: z3.And(
                            send_inv(c, old=False),
                            # ghost: the packets resubmitted so far are exactly the first i queued ones, in order
@@ -266,7 +344,8 @@ send_deferred = Spec(
                               all_types_ok(c.old('_deferred_packets'))),
     ensures=[('fifo-all-once', lambda c: c.new('ghost_resubmitted') == c.old('_deferred_packets')),
              ('requeued-packets-survive', lambda c: c.new('_deferred_packets') == c.new('ghost_requeued'))],
-    raises={'ProtocolError': True, 'CompressionError': True})
+    raises={'ProtocolError': True, 'CompressionError': True,
+            'AssertionError': lambda c: z3.And(c.old('_gss_kex'), z3.Not(opt_set(c, '_gss')))})
 send_deferred.classes['SSHConnection'] = dict(send_deferred.classes['SSHConnection'],
                                               ghost_resubmitted=parse_type(SEQT), ghost_requeued=parse_type(SEQT))
 
@@ -276,30 +355,6 @@ def all_types_ok(seq):
     dt = tuple_sort(parse_type(TUP))
     return z3.ForAll([j], z3.Implies(z3.And(0 <= j, j < z3.Length(seq)),
                                      z3.And(dt.accessor(0, 0)(seq[j]) >= 1, dt.accessor(0, 0)(seq[j]) <= 255)))
-
-
-# callee view of send_packet used by _send_deferred_packets: the contract proved above plus a ghost log
-send_packet_callee = Spec(
-    'C11x', 'connection', 'SSHConnection.send_packet', self_class='SSHConnection',
-    params=dict(pkttype='int', args='seq[bytes]'),
-    requires=lambda c: z3.And(send_inv(c), c.arg('pkttype') >= 1, c.arg('pkttype') <= 255),
-    modifies=['_kex_complete', '_rekey_bytes_sent', '_rekey_time', '_send_seq', '_kexinit_sent',
-              '_deferred_packets', 'ghost_resubmitted', 'ghost_requeued'],
-    ensures=[('inv', lambda c: send_inv(c, old=False)),
-             # from queued-xor-emitted (proved on send_packet itself): queue unchanged, or extended by this packet
-             ('queued-xor-emitted', lambda c: (lambda e: z3.Or(
-                 z3.And(c.new('_deferred_packets') == c.old('_deferred_packets'),
-                        c.new('ghost_requeued') == c.old('ghost_requeued')),
-                 z3.And(c.new('_deferred_packets') == z3.Concat(c.old('_deferred_packets'), z3.Unit(e)),
-                        c.new('ghost_requeued') == z3.Concat(c.old('ghost_requeued'), z3.Unit(e)))))(
-                 to_z3(VTuple([c.argv('pkttype'), c.argv('args')]), TUP))),
-             ('ghost-log', lambda c: c.new('ghost_resubmitted') == z3.Concat(
-                 c.old('ghost_resubmitted'),
-                 z3.Unit(to_z3(VTuple([c.argv('pkttype'), c.argv('args')]), TUP))))],
-    raises={'ProtocolError': True, 'CompressionError': True})
-send_packet_callee.vararg = 'args'
-Spec.registry.remove(send_packet_callee)
-Spec.registry.remove(_rec_contract) if _rec_contract in Spec.registry else None
 
 
 # simultaneous initiation / _kexinit_sent bookkeeping and staged-key clearing (_process_kexinit, _process_newkeys)
